@@ -23,7 +23,7 @@ MOD = "pv.props.c12"
 STYLES = ["positional", "keyword", "mixed"]
 RETURNS = ["array", "tuple", "dict"]
 SITES = ["single", "repeated_swapped", "nested2", "nested3", "caller_named_like_params", "args_are_exprs",
-         "same_name_other_body"]
+         "same_name_other_body", "many_outputs"]
 
 
 def _has_call(dag):
@@ -84,6 +84,17 @@ def call_job(prog: str, style: str, ret: str, site: str) -> JobOut:
         elif site == "args_are_exprs":
             args = {n: (ins[n] + ins[n] if dtypes[n] != np.bool_ else ins[n]) for n in names}
             called, direct = as_dict(call(f, args)), as_dict(f(**args))
+        elif site == "many_outputs":
+            # a function with 12 results (names "_10", "_11" sort before "_2")
+            def fmany(*a, **kw):
+                r = as_dict(f(*a, **kw))
+                base = [r[k_] for k_ in sorted(r)]
+                outs12 = [base[j % len(base)] * (j + 1) + j for j in range(12)]
+                if ret == "dict":
+                    return {f"o{j}": v for j, v in enumerate(outs12)}
+                return tuple(outs12)
+            fmany.__name__ = "fmany"
+            called, direct = as_dict(call(fmany, ins)), as_dict(fmany(**ins))
         elif site == "same_name_other_body":
             # two *different* functions that carry the same Python name, called in one graph
             def f2(*a, **kw):
@@ -178,7 +189,9 @@ def jobs(tier: str, seed: int):
         for style in STYLES:
             for ret in RETURNS:
                 sites = SITES if th else [SITES[(i + STYLES.index(style) + RETURNS.index(ret)) % len(SITES)], "single",
-                                          "same_name_other_body"][: 3 if (i + RETURNS.index(ret)) % 2 == 0 else 2]
+                                          "same_name_other_body", "many_outputs"][: 4 if (i + RETURNS.index(ret)) % 3 == 0
+                                                                                    else 3 if (i + RETURNS.index(ret)) % 2 == 0
+                                                                                    else 2]
                 for site in dict.fromkeys(sites):
                     J.append(Job(MOD, "call_job", {"prog": P.name, "style": style, "ret": ret, "site": site},
                                  jid=f"{P.name}/{style}/{ret}/{site}", hard_timeout=900))
